@@ -142,6 +142,20 @@ def encode (env : Env) : Nat → Ty → Val → Builder → Outcome Builder
             let root ← Hashmap.marshal (valueCodecEnc (fun x => encode env fuel t x Builder.empty)) n kvs
             b.addRef root
       | _, _ => .err "bad value")
+    | .dict k t =>
+      -- Hashmap.MarshalTLB: the root edge goes into the CURRENT cell; an empty map writes nothing
+      (match dictParts v, keyWidth k with
+      | some (ks, vs), some n =>
+        if vs.isEmpty then .ok b
+        else do
+          let kbits ← mapMOutcome (fun kv => (encode env fuel k kv Builder.empty).bind fun kb => .ok kb.bits) ks
+          match zipKV kbits vs with
+          | none => .err "hashmap has more keys than values"
+          | some kvs => do
+            let root ← Hashmap.marshal (valueCodecEnc (fun x => encode env fuel t x Builder.empty)) n kvs
+            let b ← b.writeBits root.bits
+            root.refs.foldlM (fun b r => b.addRef r) b
+      | _, _ => .err "bad value")
     | .encErr _ => .err "marshaling not implemented"
     | .opaque _ => .err "unmodelled"
 
